@@ -5,7 +5,7 @@ import ast
 from ..project import AnalysisError, loc, norm_stmt
 from ..flow import dotted, eval_test
 from ..norm import canon, single_defs
-from ..rules.common import const_value
+from ..rules.common import const_value, path_conditions, stmt_of
 
 CORE = "geometry_tools/utils/core.py"
 REP = "geometry_tools/representation.py"
@@ -1179,24 +1179,29 @@ def rule_mean1(ctx, rels, scope=None, min_sites=0):
                 continue
             if scope is not None and f not in scope:
                 continue
-            # a literal divisor under `if X.shape[j] == <that literal>:`
+            # a literal divisor where `X.shape[j] == <that literal>` is in
+            # force (enclosing `if`, or after `if X.shape[j] != K: return`)
             # is the size of axis j of X
             pinned = {}
-            for i_ in ast.walk(f.node):
-                if not (isinstance(i_, ast.If)
-                        and isinstance(i_.test, ast.Compare)
-                        and len(i_.test.ops) == 1
-                        and isinstance(i_.test.ops[0], ast.Eq)):
+            pc = path_conditions(f.node)
+            for n in ast.walk(f.node):
+                if not (isinstance(n, ast.BinOp) and isinstance(
+                        const_value(n.right), int)):
                     continue
-                sz = size_of(i_.test.left)
-                cv = const_value(i_.test.comparators[0])
-                if sz is None or not isinstance(cv, int):
-                    continue
-                for st in i_.body:
-                    for n in ast.walk(st):
-                        if isinstance(n, ast.BinOp) \
-                                and const_value(n.right) == cv:
-                            pinned[id(n)] = sz
+                st = stmt_of(n, f.module.parents)
+                for t, pol in pc.get(id(st), []):
+                    if not (isinstance(t, ast.Compare) and len(t.ops) == 1):
+                        continue
+                    sz = size_of(t.left)
+                    cv = const_value(t.comparators[0])
+                    if sz is None:
+                        sz = size_of(t.comparators[0])
+                        cv = const_value(t.left)
+                    if sz is None or cv != const_value(n.right):
+                        continue
+                    if (isinstance(t.ops[0], ast.Eq) and pol) or (
+                            isinstance(t.ops[0], ast.NotEq) and not pol):
+                        pinned[id(n)] = sz
             for n in ast.walk(f.node):
                 if not (isinstance(n, ast.BinOp)
                         and isinstance(n.op, (ast.Div, ast.FloorDiv))):
@@ -1765,6 +1770,49 @@ def rule_bfs2(ctx):
 
 
 # ---------------------------------------------------------------------------
+def _row_count_of(e):
+    """e is `X.shape[-2]` / `np.shape(X)[-2]`"""
+    if isinstance(e, ast.Subscript) and const_value(e.slice) == -2:
+        v = e.value
+        if isinstance(v, ast.Attribute) and v.attr == "shape":
+            return True
+        if isinstance(v, ast.Call) and dotted(v.func) in ("np.shape",
+                                                          "numpy.shape"):
+            return True
+    return False
+
+
+def _pins_two_rows(test, polarity):
+    """(test, polarity) implies that the row axis has exactly / at most two
+    entries"""
+    if isinstance(test, ast.UnaryOp) and isinstance(test.op, ast.Not):
+        return _pins_two_rows(test.operand, not polarity)
+    if isinstance(test, ast.BoolOp) and isinstance(test.op, ast.And) \
+            and polarity:
+        return any(_pins_two_rows(v, True) for v in test.values)
+    if isinstance(test, ast.BoolOp) and isinstance(test.op, ast.Or) \
+            and not polarity:
+        return any(_pins_two_rows(v, False) for v in test.values)
+    if not (isinstance(test, ast.Compare) and len(test.ops) == 1):
+        return False
+    a, op, b = test.left, test.ops[0], test.comparators[0]
+    if _row_count_of(b) and not _row_count_of(a):
+        a, b = b, a
+        op = {ast.Lt: ast.Gt, ast.LtE: ast.GtE, ast.Gt: ast.Lt,
+              ast.GtE: ast.LtE}.get(type(op), type(op))()
+    if not _row_count_of(a):
+        return False
+    k = const_value(b)
+    if not isinstance(k, int):
+        return False
+    t = type(op)
+    if polarity:
+        return (t is ast.Eq and k == 2) or (t is ast.LtE and k == 2) \
+            or (t is ast.Lt and k == 3)
+    return (t is ast.NotEq and k == 2) or (t is ast.Gt and k == 2) \
+        or (t is ast.GtE and k == 3)
+
+
 def rule_mean2(ctx):
     r = ctx.r
     r.rule("MEAN2", "in the sphere / circle parameter computations the "
@@ -1792,6 +1840,7 @@ def rule_mean2(ctx):
     sites = 0
     for f in roots + helpers:
         parents = f.module.parents
+        pconds = path_conditions(f.node)
         for n in ast.walk(f.node):
             mean = None
             if isinstance(n, ast.BinOp) and isinstance(n.op, ast.Div):
@@ -1815,15 +1864,9 @@ def rule_mean2(ctx):
             sites += 1
             r.analysed(f)
             # guarded by `<x>.shape[-2] == 2`?
-            cur, guarded = mean, False
-            while cur is not f.node:
-                par = parents[cur]
-                if isinstance(par, ast.If) and any(
-                        cur is x for x in par.body):
-                    t = dotted(par.test)
-                    if "shape[-2]" in t and "== 2" in t:
-                        guarded = True
-                cur = par
+            st = stmt_of(mean, parents)
+            guarded = any(_pins_two_rows(t, pol)
+                          for t, pol in pconds.get(id(st), []))
             fixed = f.cls is not None and f.cls.name in two_row
             inst = f"{f.qualname}:row-mean"
             if guarded or fixed:
